@@ -1,7 +1,7 @@
 (* Extraction of the executable model. ExtrOcamlBasic only; N/Z/positive/nat stay inductive. *)
 From Coq Require Extraction ExtrOcamlBasic.
 From Base Require Import PyStr.
-From Model Require Import Wrap BlockStart RxPort Tags LineWrap Frontmatter FsOps Cli Typography Ast Transforms Render Pipeline.
+From Model Require Import Wrap BlockStart Resolver RxPort Tags LineWrap Frontmatter FsOps Cli Typography Ast Transforms Render Pipeline.
 
 Extraction Language OCaml.
 Extraction "model.ml"
@@ -17,4 +17,5 @@ Extraction "model.ml"
   run_prog target_okb
   main_run merge_fields find_config
   smart_quotes ellipses
+  walk include_explicit expand_glob resolve
   dedent prepare_body render_parsed transform_doc render_doc doc_cleanups coalesce_doc fill_markdown parser_input.
